@@ -25,6 +25,7 @@ from functools import lru_cache, partial, reduce
 import json
 from nanoemoji.config import FontConfig
 from nanoemoji.color_glyph import scale_viewbox_to_font_metrics
+from nanoemoji.glyph_reuse import MIN_NORMALIZE_TOLERANCE
 from pathlib import Path
 from picosvg.geometric_types import Rect
 from picosvg.svg import SVG
@@ -124,7 +125,8 @@ class ReusableParts:
             norm = NormalizedShape(
                 normalize(
                     SVGPath(d=path).apply_transform(Affine2D.identity()),
-                    self.reuse_tolerance,
+                    # tolerance 0 would divide by zero when snapping to multiples
+                    self.reuse_tolerance or MIN_NORMALIZE_TOLERANCE,
                 ).d
             )
         else:
